@@ -248,15 +248,30 @@ def keyword_root_cause(err, wit_text, keywords, loc_re=r"^(\S+?):(\d+):(\d+): (?
     upper case (generators match keywords before case conversion) or the
     keyword is missing from the generator's escape list.  Returns a signature
     suffix or None."""
-    for line in err.splitlines():
+    lines = err.splitlines()
+    for i, line in enumerate(lines):
         m = re.match(loc_re, line)
+        if not m and re.match(r"error(\[E\d+\])?: ", line):
+            # rustc: location on a following `--> file:line:col` line
+            for nxt in lines[i + 1:i + 4]:
+                m2 = re.match(r"\s*--> (\S+?):(\d+):(\d+)", nxt)
+                if m2:
+                    m = m2
+                    break
+            if not m:
+                m = re.match(r"()()()", "")
         if not m:
             continue
-        path, ln, col = m.group(1), int(m.group(2)), int(m.group(3))
-        cands = [token_at(path, ln, col)]
+        if m.group(1):
+            path, ln, col = m.group(1), int(m.group(2)), int(m.group(3))
+            cands = [token_at(path, ln, col)]
+        else:
+            path, ln, col = "", 0, 0
+            cands = []
         # the caret may sit just behind the offending word
         for back in range(1, 4):
-            cands.append(token_at(path, ln, col - back))
+            if path:
+                cands.append(token_at(path, ln, col - back))
         cands += re.findall(r"[`'‘]([A-Za-z_][A-Za-z0-9_]*)['’`]", line)
         for tok in cands:
             if tok and tok in keywords:
@@ -282,6 +297,30 @@ def bucket(msg, buckets):
         if re.search(rx, msg):
             return name
     return None
+
+
+GENERATOR_TEMPORARIES = re.compile(
+    r"(?<![\w-])(cleanup-list|ret-area|ptr\d*|len\d*|result\d*|vec\d*|base|array\d*|payload\d*|variant\d*|layout\d*|bytes\d*|"
+    r"handle\d*|e\d*|t\d*|v\d*|l\d*|p\d*|option\d*|key\d*|map\d*|tuple\d*|flags\d*|addr\d*|arg\d+|ret|val|rep)(?![\w-])")
+
+_RUST_VOCAB = re.compile(r"^(&|&mut |\*const |\*mut )?(wit_|_rt|into_|as_|from_|Vec|String|str|Box|Option|Result|BTreeMap|HashMap|AsI|AsF|Guest$|(Self|self|crate|super)$|u8|u16|u32|u64|i8|i16|i32|i64|f32|f64|usize|bool|char)")
+
+
+def normalise_rust(msg):
+    """rustc diagnostic -> stable text: back-ticked fragments survive only when
+    they are runtime/generator vocabulary (generic arguments elided)."""
+    msg = msg.strip().splitlines()[0] if msg.strip() else ""
+
+    def q(m):
+        inner = m.group(1)
+        if _RUST_VOCAB.match(inner) or inner in RUST_KEYWORDS:
+            inner = re.sub(r"<.*>", "<..>", inner)
+            return "`" + inner + "`"
+        return "`_`"
+
+    msg = re.sub(r"`([^`]*)`", q, msg)
+    msg = re.sub(r"\b\d+\b", "N", msg)
+    return re.sub(r"\s+", " ", msg)[:160]
 
 
 def normalise(msg, keep=()):
